@@ -45,6 +45,7 @@ var rsaSKIMal KeyPair // Mallory's key under a self-signed certificate copying r
 var rsa4096 KeyPair   // a 4096-bit key
 var rsa1Sig KeyPair   // rsa1's key under a certificate with keyUsage digitalSignature (+contentCommitment) only
 var rsa1CA KeyPair    // rsa1's key under a self-signed CA:TRUE certificate
+var rsaOld2 KeyPair   // a second key whose certificate lapsed in 1999
 
 func fixturesDir() string {
 	if d := os.Getenv("VERIF_FIXTURES"); d != "" {
@@ -87,7 +88,7 @@ func loadFixtures() {
 	}
 	rsaOld = loadKey("rsaold")
 	rsaSig, rsaSKI, rsaSKIMal, rsa4096 = loadKey("rsasig"), loadKey("rsaski"), loadKey("rsaskimal"), loadKey("rsa4096")
-	rsa1Sig, rsa1CA = loadKey("rsa1sig"), loadKey("rsa1ca")
+	rsa1Sig, rsa1CA, rsaOld2 = loadKey("rsa1sig"), loadKey("rsa1ca"), loadKey("rsaold2")
 }
 
 // passVerifier is an application-supplied saml.SignatureVerifier that does what the library would do itself.
